@@ -86,12 +86,17 @@ class CaseResult:
 
 def _worker(args):
     fn, params = args
+    t0 = time.time()
     try:
-        return fn(_WPROG[0], params)
+        r = fn(_WPROG[0], params)
     except Exception as e:      # engine bug: inconclusive, never silent
         r = CaseResult()
         r.inconclusive.append('INTERNAL %s: %s' % (type(e).__name__, traceback.format_exc()[-1500:]))
-        return r
+    r.extra['wall_s'] = time.time() - t0
+    return r
+
+
+_LAST_RUN = [0.0]
 
 
 _WPROG = [None]
@@ -101,11 +106,15 @@ def run_cases(prog, fn, cases, nproc=None):
     """run fn(prog, params) for every case on a fork pool; returns list of CaseResult"""
     nproc = nproc or NPROC
     _WPROG[0] = prog
-    if nproc <= 1 or len(cases) <= 1:
-        return [_worker((fn, c)) for c in cases]
-    ctx = mp.get_context('fork')
-    with ctx.Pool(min(nproc, len(cases))) as pool:
-        return pool.map(_worker, [(fn, c) for c in cases], chunksize=1)
+    t0 = time.time()
+    try:
+        if nproc <= 1 or len(cases) <= 1:
+            return [_worker((fn, c)) for c in cases]
+        ctx = mp.get_context('fork')
+        with ctx.Pool(min(nproc, len(cases))) as pool:
+            return pool.map(_worker, [(fn, c) for c in cases], chunksize=1)
+    finally:
+        _LAST_RUN[0] = time.time() - t0
 
 
 # ------------------------------------------------------------------------------------------ known findings
@@ -210,7 +219,8 @@ class Check:
 
     def add(self, results, family):
         self.results += results
-        self.families.append({'family': family, 'cases': len(results)})
+        self.families.append({'family': family, 'cases': len(results), 'wall_s': round(_LAST_RUN[0], 1),
+                              'slowest_case_s': round(max([r.extra.get('wall_s', 0) for r in results] or [0]), 1)})
 
     def finish(self, prog):
         """-> exit code; prints VIOLATION / KNOWN-FINDING lines; writes evidence"""
